@@ -362,3 +362,105 @@ Example C07_meta_concrete :
   count_linked dline (close_line th) th (mobj (mrun h (m_create (enc_up 100000000) ms))) pts pts = 4%nat /\
   count_linked dline (close_line th) th (mobj (mrun h (m_create (enc_round 100000000) ms))) pts pts = 2%nat.
 Proof. vm_compute. repeat split; reflexivity. Qed.
+
+(* ---------- the OPTIONS of a measurement in a long-lived process (Model/EffOptions.v) ---------- *)
+(* An option a configuration leaves unset means its default, whatever earlier measurements of the same process used.
+   Qualified names: TreeCache has its own `run` / `step`. *)
+From Verif Require EffOptions EffOptionsP.
+
+(* any process whose options-in-use are a function of the configuration: history independent *)
+Theorem C07_options_function_of_conf_history_independent :
+  forall (V St : Type) (stp : St -> EffOptions.conf V -> St * list V) (f : EffOptions.conf V -> list V),
+    (forall s c, snd (stp s c) = f c) ->
+    forall s0 h c, EffOptions.gused stp s0 h c = f c /\ EffOptions.gused stp s0 h c = EffOptions.gused stp s0 [] c.
+Proof. exact EffOptionsP.function_of_conf_history_independent. Qed.
+Print Assumptions C07_options_function_of_conf_history_independent.
+
+(* a new record per measurement, or a copy of a shared record of defaults: after ANY history the options in use are
+   the configuration's own, unset = default, = those of a process that has done nothing else *)
+Theorem C07_effective_options_history_independent : forall (V : Type) p (ds : list V) h c,
+  p <> EffOptions.AliasShared ->
+  EffOptions.used p ds h c = EffOptions.fill ds c /\ EffOptions.used p ds h c = EffOptions.used_fresh p ds c.
+Proof. exact EffOptionsP.effective_options_history_independent. Qed.
+Print Assumptions C07_effective_options_history_independent.
+
+Theorem C07_measurement_options_history_independent :
+  forall (V R : Type) (count : list V -> R) p (ds : list V) h c,
+    p <> EffOptions.AliasShared ->
+    count (EffOptions.used p ds h c) = count (EffOptions.used_fresh p ds c).
+Proof. exact EffOptionsP.measurement_options_history_independent. Qed.
+Print Assumptions C07_measurement_options_history_independent.
+
+Theorem C07_copy_shared_never_written : forall (V : Type) (ds s : list V) h,
+  EffOptions.run EffOptions.CopyShared ds s h = s.
+Proof. exact EffOptionsP.copy_shared_invariant. Qed.
+Print Assumptions C07_copy_shared_never_written.
+
+(* the result key of the tied instance (defaults: no weighting, resolution 50, kpc, Planck15, right) *)
+Theorem C07_result_key_history_independent : forall p h c,
+  p <> EffOptions.AliasShared ->
+  EffOptions.result_key (EffOptions.used p EffOptions.c07_defaults h c) = EffOptions.conf_key c.
+Proof. exact EffOptionsP.result_key_history_independent. Qed.
+Print Assumptions C07_result_key_history_independent.
+
+(* a shared record updated in place only for the options that are set: every slot keeps the last value any
+   measurement set ... *)
+Theorem C07_alias_shared_keeps_last_explicit : forall (V : Type) (ds : list V) h c,
+  EffOptions.used EffOptions.AliasShared ds h c = EffOptions.fill (fold_left (@EffOptions.fill V) h ds) c.
+Proof. exact EffOptionsP.alias_used_fold. Qed.
+Print Assumptions C07_alias_shared_keeps_last_explicit.
+
+(* ... refuted by the two-step history (explicit value, then None) ... *)
+Theorem C07_alias_shared_refuted :
+  exists (ds : list nat) (h : list (EffOptions.conf nat)) (c : EffOptions.conf nat),
+    EffOptions.used EffOptions.AliasShared ds h c <> EffOptions.used_fresh EffOptions.AliasShared ds c /\
+    EffOptions.used EffOptions.AliasShared ds h c <> EffOptions.fill ds c.
+Proof. exact EffOptionsP.alias_shared_refuted. Qed.
+Print Assumptions C07_alias_shared_refuted.
+
+Theorem C07_alias_shared_refuted_key :
+  exists (h : list (EffOptions.conf EffOptions.oval)) (c : EffOptions.conf EffOptions.oval),
+    EffOptions.key_eqb (EffOptions.result_key (EffOptions.used EffOptions.AliasShared EffOptions.c07_defaults h c))
+                       (EffOptions.conf_key c) = false /\
+    EffOptions.key_eqb (EffOptions.result_key (EffOptions.used EffOptions.NewRecord EffOptions.c07_defaults h c))
+                       (EffOptions.conf_key c) = true /\
+    EffOptions.key_eqb (EffOptions.result_key (EffOptions.used EffOptions.CopyShared EffOptions.c07_defaults h c))
+                       (EffOptions.conf_key c) = true.
+Proof. exact EffOptionsP.alias_shared_refuted_key. Qed.
+Print Assumptions C07_alias_shared_refuted_key.
+
+(* ... and invisible to histories whose measurements all carry the same options, and to measurements that set every
+   option (which is why histories have to vary the options from step to step) *)
+Theorem C07_alias_shared_same_options_invisible : forall (V : Type) (ds : list V) h c,
+  Forall (eq c) h -> EffOptions.used EffOptions.AliasShared ds h c = EffOptions.fill ds c.
+Proof. exact EffOptionsP.alias_same_options_invisible. Qed.
+Print Assumptions C07_alias_shared_same_options_invisible.
+
+Theorem C07_alias_shared_all_set_invisible : forall (V : Type) (ds : list V) h c,
+  EffOptions.all_set c = true -> (length ds <= length c)%nat ->
+  EffOptions.used EffOptions.AliasShared ds h c = EffOptions.fill ds c.
+Proof. exact EffOptionsP.alias_all_set_independent. Qed.
+Print Assumptions C07_alias_shared_all_set_invisible.
+
+(* non-vacuity: weighting -1 with resolution 12, then weighting -1 with the resolution unset, then no weighting.
+   NewRecord / CopyShared use resolution 50 in the second measurement, AliasShared still 12; the exposure function
+   marks that step and the third one (AliasShared keeps the weighting, too), but nothing in a history where the stale
+   resolution meets no weighting or every measurement sets it; the case checker accepts equal
+   lived / fresh classes and flags a differing second measurement (bit 1) and a fresh result that is not a function
+   of the effective options (bit 2: resolution None vs explicit 50 must agree) *)
+Example C07_options_concrete :
+  let w := Some (Some ((-1) # 1)) : option EffOptions.oval in
+  let r12 := Some (Some (12 # 1)) : option EffOptions.oval in
+  let r50 := Some (Some (50 # 1)) : option EffOptions.oval in
+  let h := [[w; r12]; [w; None]; [None; None]] in
+  map (fun c => nth 1 c None) [EffOptions.used EffOptions.NewRecord EffOptions.c07_defaults [[w; r12]] [w; None];
+                               EffOptions.used EffOptions.CopyShared EffOptions.c07_defaults [[w; r12]] [w; None];
+                               EffOptions.used EffOptions.AliasShared EffOptions.c07_defaults [[w; r12]] [w; None]]
+    = [Some (50 # 1); Some (50 # 1); Some (12 # 1)] /\
+  EffOptions.alias_exposed h = [false; true; true] /\
+  EffOptions.alias_exposed [[None; r12]; [None; None]; [w; r12]; [w; r12]] = [false; false; false; false] /\
+  EffOptions.c07_ocase h [0; 1; 2]%nat [0; 1; 2]%nat = 0%nat /\
+  EffOptions.c07_ocase h [0; 0; 2]%nat [0; 1; 2]%nat = 2%nat /\
+  EffOptions.c07_ocase [[w; None]; [w; r50]; [w; r12]] [0; 1; 2]%nat [0; 1; 2]%nat = 4%nat /\
+  EffOptions.c07_ocase [[w; None]; [w; r50]; [w; r12]] [0; 0; 2]%nat [0; 0; 2]%nat = 0%nat.
+Proof. vm_compute. repeat split; reflexivity. Qed.
